@@ -3,7 +3,7 @@
    (new_nonce, server_nonce) and the key-exchange wrapper as symbolic terms over named inputs.
    TLC evaluates the definitions per case and serialises them; the Go harness binds the
    inputs (seeded), runs the real code and checks every relation. *)
-EXTENDS Terms, TLC, Json, IOUtils, FiniteSets
+EXTENDS Terms, TLC, Json, IOUtils, FiniteSets, SequencesExt
 CONSTANTS BlockCounts, MaxPayload
 
 Def == INSTANCE IGE WITH E <- AesE, D <- AesD, X <- XorT
@@ -46,7 +46,7 @@ WrapClientCase(len, lzn, lzs) ==
 LZ == {0, 1, 2}
 Cases ==
      [i \in 1..Cardinality(BlockCounts) * 2 |->
-        LET ns == CHOOSE s \in [1..Cardinality(BlockCounts) -> BlockCounts] : \A a, b \in DOMAIN s : a < b => s[a] < s[b]
+        LET ns == SetToSortSeq(BlockCounts, <)
         IN IgeCase(ns[(i + 1) \div 2], IF i % 2 = 1 THEN "enc" ELSE "dec")]
   \o [i \in 1..9 |-> TempKeyCase((i - 1) \div 3, (i - 1) % 3)]
   \o [i \in 1..(MaxPayload + 1) |-> WrapPeerCase(i - 1, 0, 0)]
